@@ -37,8 +37,20 @@ def prepare(rp, ce, params):
     fields = dict(kind="vm_prog", ops=";".join(ops), costs=" ".join(f"{a}:{b}" for a, b in costs.items()),
                   kind_costs=" ".join(f"{a}={b}" for a, b in kind_costs.items()), default_cost="0", limit=str(limit), stack="", memory="")
 
+    only_push = all(o.startswith("Stack::Push:") for o in ops)
+
     def judge(out):
         if "panic" in out: return True, "real code panics: " + out["panic"][:200]
+        if only_push:
+            # exact reference: an op is charged BEFORE it runs; the first op that does not fit stops the run without any effect
+            spent, done = 0, []
+            for j, o in enumerate(ops):
+                w = int(o.rsplit(":", 1)[1]); c = costs[w]
+                if spent + c > limit or spent + c >= 2**64:
+                    st = [int(x) for x in out.get("stack", "").split()]
+                    bad = out.get("result") != "err" or out.get("err_index") != str(j) or "OutOfGas" not in out.get("err", "") or st != done
+                    return bad, f"op {j} (cost {c}) does not fit after {spent} of {limit}: expected OutOfGas at op {j} with stack {done}; real: {out.get('result')} index {out.get('err_index')} stack {st} {out.get('err', '')[:60]}"
+                spent += c; done.append(w)
         if out.get("result") == "ok":
             g = int(out["gas"])
             if g > limit: return True, f"real Vm::exec returns Ok({g}) above the total limit {limit}"
